@@ -1555,6 +1555,10 @@ namespace bluetoe {
     {
         const std::size_t last_index = last_handle_index( ending_handle );
 
+        // no attribute with a handle less or equal to ending_handle
+        if ( last_index == details::invalid_attribute_index )
+            return;
+
         for ( std::size_t index = handle_mapping::first_index_by_handle( starting_handle ); index <= last_index; ++index )
         {
             const details::attribute attr = attribute_at( index );
@@ -1681,9 +1685,14 @@ namespace bluetoe {
     {
         const std::size_t mapped = handle_mapping::first_index_by_handle( ending_handle );
 
-        return mapped == details::invalid_attribute_index
-            ? number_of_attributes - 1
-            : mapped;
+        if ( mapped == details::invalid_attribute_index )
+            return number_of_attributes - 1;
+
+        // if the ending handle points into a gap between two attribute handles, the attribute in front of the gap is the last one
+        if ( handle_mapping::handle_by_index( mapped ) != ending_handle )
+            return mapped == 0 ? details::invalid_attribute_index : mapped - 1;
+
+        return mapped;
     }
 
     template < typename ... Options >
